@@ -64,6 +64,9 @@ func TraverseAST(node ast.Node, env *Pass1) ast.Node {
 		label := strings.TrimSuffix(n.Label.Value, ":")
 		log.Printf("debug: [LOC Before Label] LOC: 0x%x (%d) before processing label '%s'", env.LOC, env.LOC, label) // ラベル処理前のLOC (traceレベルに変更)
 		env.SymTable[label] = env.LOC
+		if delete(env.PendingLabels, label); len(env.PendingLabels) == 0 {
+			env.PendingLabels = nil
+		}
 		log.Printf("debug: [LabelStmt] Defined label '%s' at LOC 0x%x (%d)", label, env.LOC, env.LOC) // ラベル定義時のログ追加 (traceレベルに変更)
 		// ラベルステートメント自体は処理後に出力ノードを生成しません。
 		return nil // または、pass2 でラベルを AST に残す場合は n を返します
